@@ -16,6 +16,9 @@
                     Added while reading; reported under its own rule name so it can be triaged separately.
   TREE-WHO          the tree lock (`RwLock<Node>::{read,write}`) is acquired only in zbus functions this
                     module analyses (every acquisition is inside a coroutine so that R-AWAIT sees it).
+  IFACE-LOCK-MODE   the `&self` entry points of Interface (call, get, get_all, set) are invoked through a *read*
+                    guard of the instance lock, call_mut / set_mut through the write guard (a `&self` handler may
+                    re-enter its own interface through ObjectServer::interface(), which takes the read lock)
   START-EVENT       every way of reaching `Connection::start_object_server` (through parameter passing and
                     closure captures, at most 4 frames) either passes `Some(event)` or is dead because the
                     `start` flag on that chain is the constant `false`.  A chain that starts the dispatcher
@@ -520,6 +523,44 @@ def notify_rule(ctx, f, start, tag):
            "the dispatcher task tests its started_event" if found else "no test of started_event found in the dispatcher task", co.where)
 
 
+IFACE_T = "zbus::object_server::interface::Interface"
+SHARED_METHODS = ("call", "get", "get_all", "set", "introspect_to_writer")
+EXCL_METHODS = ("call_mut", "set_mut")
+
+
+def lock_mode_rule(ctx, f, tag=""):
+    """IFACE-LOCK-MODE (added after seeded change C30b): a `&self` handler may look its own interface up through the
+    object server (`ObjectServer::interface` then takes the instance's *read* lock), so the `&self` entry points of
+    `Interface` must run under a shared guard of the instance lock; only `call_mut` / `set_mut` may run under the
+    exclusive one. Decided per call site from the guard type the receiver is dereferenced from."""
+    n = 0
+    for b in f.all_bodies("zbus"):
+        for c in mir.calls(b):
+            if not c.declared.startswith(IFACE_T + "::") or not c.args:
+                continue
+            m = c.declared.rsplit("::", 1)[1]
+            if m not in SHARED_METHODS + EXCL_METHODS:
+                continue
+            o = mir.origin(b, c.args[0])
+            guard = None
+            if o[0] == "call" and o[1].is_("deref", "deref_mut"):
+                guard = o[1].callee
+            if guard is None or "Guard" not in guard:
+                # not called through a lock guard (e.g. on a freshly built instance): no lock is held here
+                continue
+            n += 1
+            excl = "WriteGuard" in guard or "UpgradableReadGuard" in guard or "MutexGuard" in guard
+            if m in SHARED_METHODS:
+                ctx.ob("IFACE-LOCK-MODE", "%s%s:%s-under-shared-lock" % (tag, b.root, m), not excl,
+                       "Interface::%s runs under a read guard of the instance lock" % m if not excl else
+                       "Interface::%s (a `&self` entry point) runs under the exclusive instance lock: a handler that reaches "
+                       "its own interface through ObjectServer::interface() waits for itself" % m, c.where)
+            else:
+                ctx.ob("IFACE-LOCK-MODE", "%s%s:%s-under-exclusive-lock" % (tag, b.root, m), excl,
+                       "Interface::%s runs under the write guard" % m, c.where)
+    ctx.floor("IFACE-LOCK-MODE", tag + "Interface entry points called through an instance-lock guard", n, 6)
+
+
 def run(ctx):
     ctx.explanation = (
         "R-AWAIT on rustc's coroutine layouts (K1): for every suspension point in zbus at which a guard of the object tree lock "
@@ -532,7 +573,9 @@ def run(ctx):
     f = ctx.facts("K1")
     guard_rules(ctx, f)
     start_rules(ctx, f)
+    lock_mode_rule(ctx, f)
     if ctx.tier == "thorough":
         f3 = ctx.facts("K3")
         guard_rules(ctx, f3, "K3:")
         start_rules(ctx, f3, "K3:")
+        lock_mode_rule(ctx, f3, "K3:")
